@@ -43,6 +43,7 @@ ORACLES = {
         'stdlib::str_slice': ['stdlib::str_slice'],
         'emit::emit_index_expr': ['incan::emit_slice'], 'emit::emit_slice_expr': ['incan::emit_slice'],
         'emit::emit_list_get_mut_lvalue': ['incan::emit_slice'], 'emit::emit_range_call': ['incan::emit_range'],
+        'lowering::lower_expr(Index)': ['incan::emit_slice'], 'lowering::lower_expr(Slice)': ['incan::emit_slice'],
         'parser::parse_slice': ['incan::emit_slice'], 'parser::index_or_slice': ['incan::emit_slice'], 'parser::peek': ['incan::emit_slice'],
         'parser::is_at_end': ['incan::emit_slice'], 'parser::advance': ['incan::emit_slice'], 'parser::check': ['incan::emit_slice'],
         'parser::match_token': ['incan::emit_slice'], 'parser::expect': ['incan::emit_slice'],
@@ -59,6 +60,7 @@ ORACLES = {
         'emit::try_emit_static_str_add': ['incan::emit_promotion'],
         'lowering::lower_statement(CompoundAssignment)': ['incan::emit_promotion', 'incan::compound_assign'],
         'lowering::lower_expr(Binary)': ['incan::emit_promotion', 'incan::static_type'],
+        'checker::types_compatible(int/float)': ['incan::static_type'], 'checker::check_return': ['incan::static_type'], 'checker::check_assignment': ['incan::static_type'],
         '*': ['core::policy', 'incan::exponent_kind', 'incan::binop_plan', 'incan::static_type', 'incan::emit_promotion', 'incan::static_type_nested', 'incan::compound_assign'],
     },
     'C19': {
